@@ -4,12 +4,14 @@ import Mathlib.Tactic.Ring
 import Mathlib.Tactic.Linarith
 import Mathlib.LinearAlgebra.Lagrange
 import Mathlib.FieldTheory.Finite.Basic
+import KeepVerif.Proofs.Primes
 /-!
 # C03 — Threshold BLS recovery yields the unique group signature
 
 Theorems over `Model/C03.lean` (the functions the driver runs).  The scalar field is `ZMod R`
 with `R = Gen.C03.groupOrder` (extracted from `bn256.Order`); its primality is the hypothesis
-`[Fact (Nat.Prime R)]` (A-field) — never an axiom.  Group elements are exponents (A-field: G1, G2
+`[Fact (Nat.Prime R)]` of the lemmas and is DISCHARGED at the end of the file (`R_prime`, a Pratt
+certificate checked by the kernel in `Proofs/Primes.lean`; `*_unconditional` theorems) — never an axiom.  Group elements are exponents (A-field: G1, G2
 cyclic of order `R`), so "`f(i) • M`" is the product `f(i) * M` in `ZMod R`.
 
 * `recover_skips`, `recover_skips_insert` — skipped entries never change the result (fixed code);
@@ -535,6 +537,39 @@ theorem recovered_verifies [hp : Fact (Nat.Prime R)] (thr : Int) (es : List Entr
     ∃ e, recoverSig thr es = .ok e ∧ verify a0 m e = true := by
   obtain ⟨e, he, _, hec⟩ := recover_eq_secret thr es f (m : ZMod R) h0 henough hdist hdeg hval
   exact ⟨e, he, (verify_iff a0 m e).mpr (by rw [hec, ha0])⟩
+
+/-! ## Assumption A-field (primality of the group order) discharged -/
+
+/-- the group order extracted from the source is prime (Pratt certificate checked by the kernel);
+    if the constant in the source changes this stops checking. -/
+theorem R_prime : Nat.Prime R := Primes.groupOrder_prime
+
+open Polynomial in
+/-- **C03, recovery — no hypothesis on `R`.** -/
+theorem recover_eq_secret_unconditional (thr : Int) (es : List Entry)
+    (f : (ZMod R)[X]) (M : ZMod R) (h0 : 0 ≤ thr)
+    (henough : thr ≤ (es.filterMap Entry.valid?).length)
+    (hdist : (((es.filterMap Entry.valid?).take thr.toNat).map
+      (fun s => ((s.1 : Int) : ZMod R))).Nodup)
+    (hdeg : f.degree < thr.toNat)
+    (hval : ∀ s ∈ (es.filterMap Entry.valid?).take thr.toNat,
+      (s.2 : ZMod R) = f.eval ((s.1 : Int) : ZMod R) * M) :
+    ∃ e, recoverSig thr es = .ok e ∧ e < R ∧ (e : ZMod R) = f.eval 0 * M :=
+  @recover_eq_secret ⟨R_prime⟩ thr es f M h0 henough hdist hdeg hval
+
+open Polynomial in
+/-- **C03, the recovered signature verifies — no hypothesis on `R`.** -/
+theorem recovered_verifies_unconditional (thr : Int) (es : List Entry)
+    (f : (ZMod R)[X]) (a0 m : Nat) (h0 : 0 ≤ thr)
+    (ha0 : f.eval 0 = (a0 : ZMod R))
+    (henough : thr ≤ (es.filterMap Entry.valid?).length)
+    (hdist : (((es.filterMap Entry.valid?).take thr.toNat).map
+      (fun s => ((s.1 : Int) : ZMod R))).Nodup)
+    (hdeg : f.degree < thr.toNat)
+    (hval : ∀ s ∈ (es.filterMap Entry.valid?).take thr.toNat,
+      (s.2 : ZMod R) = f.eval ((s.1 : Int) : ZMod R) * (m : ZMod R)) :
+    ∃ e, recoverSig thr es = .ok e ∧ verify a0 m e = true :=
+  @recovered_verifies ⟨R_prime⟩ thr es f a0 m h0 ha0 henough hdist hdeg hval
 
 /-! ## Share validation (`extractAndValidateShare`) -/
 
